@@ -29,6 +29,12 @@ type Prog struct {
 	// Funcs: every source-level function with a body in the repository
 	// packages (methods, package functions, anonymous functions), sorted.
 	Funcs []*ssa.Function
+	// oneofCache: pb message structs reachable through a oneof member (see underOneof).
+	oneofCache    map[*types.Struct]bool
+	oneofWrappers int
+	// partialDecode: position of a decoder configured with AllowPartial ("" if none).
+	partialDecode string
+	partialTypes  map[*types.Struct]bool
 	// byObj: declared function object -> SSA function.
 	byObj map[*types.Func]*ssa.Function
 	// decls: SSA function -> its syntax
